@@ -473,6 +473,16 @@ def run(ctx):
                    f"arguments {sorted(tainted_args - derives)} do not derive from the whitelisted name"), c,
                   f"dominated by the whitelist test ({guarded[0] if guarded else ''}); arguments derive from it",
                   key=f"R6.4:fieldtype:unguarded:{call_name(c)}")
+    # every class handed out has passed the whitelist test in THIS activation: a return that is not under `<name> in WHITELIST`
+    # (for instance a list type built around the result of a recursive lookup, which would accept `string[][]`) is a hole
+    for rt in [n for n in fcfg.stmt_nodes() if isinstance(n.ast, ast.Return)]:
+        facts = {(t, p) for t, p, _ in fcfg.facts_at(rt.id)}
+        guarded = [t for t, p in facts if p and t.endswith(" in WHITELIST") and t.split(" in ")[0] in derives]
+        ctx.check(bool(guarded), "R6.4", f"fieldtype:return@{norm(rt.ast)[:30]}", "a field type class is returned on a path on which no `<name> in WHITELIST` test of the requested "
+                  "name (with at most one list suffix removed) has succeeded", rt.ast, "every return is under the whitelist test", key="R6.4:fieldtype:unguarded-return")
+    selfcalls = [c for c in calls_in(ft) if isinstance(c.func, ast.Name) and c.func.id == ft.name]
+    ctx.check(not selfcalls, "R6.4", "fieldtype:no-recursion", "fieldtype() calls itself: each level strips another `[]`, so nested list types (`string[][]`) pass although the "
+              "whitelist admits one list level", selfcalls[0] if selfcalls else ft, "the list suffix is removed once, in one activation", key="R6.4:fieldtype:recursive-lookup")
     # the test must be against the real whitelist constant
     r = prog.resolve_global(base, "WHITELIST")
     ctx.check(r is not None and isinstance(r, tuple) and r[2] is wl_mod, "R6.4", "fieldtype:WHITELIST-binding",
@@ -662,6 +672,22 @@ def run(ctx):
             ctx.check(isinstance(r6, DefRef) and r6.qualname in ("flow.record.base.RecordDescriptor", "flow.record.base.RecordDescriptor._unpack"), "R6.5",
                       f"packer.RecordPacker.unpack_obj:descriptor-branch:return {norm(rt6.value)[:40]}", f"a descriptor frame can be answered with `{norm(rt6.value)}` instead of a freshly "
                       "validated RecordDescriptor", rt6, "returns RecordDescriptor._unpack(name, fields)", key="R6.5:unpack_obj:descriptor-branch:unvalidated-return")
+    # the JSON decoder's descriptor branch likewise: whatever is returned for a line marked as a descriptor is freshly validated
+    ju6 = prog.func("flow.record.jsonpacker.JsonRecordPacker.unpack_obj")
+    jcfg6 = CFG(ju6)
+    n_j6 = 0
+    for rn6 in [n for n in jcfg6.stmt_nodes() if isinstance(n.ast, ast.Return) and n.ast.value is not None]:
+        facts6 = [(t, p) for t, p, _ in jcfg6.facts_at(rn6.id)]
+        if not any(p and "recorddescriptor" in t and "==" in t for t, p in facts6):
+            continue
+        n_j6 += 1
+        v6 = rn6.ast.value
+        r6 = prog.resolve_expr(ju6._module, v6.func) if isinstance(v6, ast.Call) else None
+        ctx.check(isinstance(r6, DefRef) and r6.qualname in ("flow.record.base.RecordDescriptor", "flow.record.base.RecordDescriptor._unpack"), "R6.5",
+                  f"jsonpacker.JsonRecordPacker.unpack_obj:descriptor-branch:return {norm(v6)[:40]}", f"a descriptor line can be answered with `{norm(v6)}` instead of a freshly "
+                  "validated RecordDescriptor (a registered descriptor whose 32-bit identifier matches is not a validation of the definition in the line)", rn6.ast,
+                  "returns RecordDescriptor._unpack(*data)", key="R6.5:json-unpack_obj:descriptor-branch:unvalidated-return")
+    ctx.floor("R6.5", "returns of the JSON decoder's descriptor branch", n_j6, 1)
 
 
 def _target_names(t):
